@@ -362,7 +362,8 @@ func c03ValueExprs(thorough bool) []string {
 		add("`1` " + op + " a")
 	}
 	for _, e := range []string{"-a", "+a", "!a", "a[0]", "a[1:]", "a[::-1]", "a[::2]", "a[*]", "a[]", "a.*", "*", "[*]", "[]", "a[?@]", "a[?b]", "a[?@ == `1`]", "[a, b]", "{k: a}", "a.b", "a | b", "@", "$",
-		"let $v = a in [$v, $v == b]", "sort_by(arr, &a)", "max_by(arr, &k)", "group_by(arr, &a)", "map(&a, arr)", "arr[*].a", "arr[?a]", "to_string(@)", "to_string(a)", "type(a)", "to_number(a)", "a[0:1:1]", "[0]", "[-1]", "[1:]",
+		"let $v = a in [$v, $v == b]", "let $v = a, $v = b in $v", "let $v = a, $w = b, $v = `1` in [$v, $w]", "let $v = a in let $v = b, $v = $v in $v", "{k: a, k: b}", "{k: a, k: b, k: a}.k", "merge(`{}`, `{}`)", "to_string(merge(a, b))",
+		"reverse(a)", "reverse(s)", "reverse(x0)", "sort_by(arr, &sort_by(arr, &a)[0].a)", "lower(a)", "upper(a)", "trim(a)", "trim_left(a)", "trim_right(a)", "trim_right(a, '')", "split(a, '')", "a[::-1]", "a[::2]", "pad_left(a, `3`)", "sort_by(arr, &a)", "max_by(arr, &k)", "group_by(arr, &a)", "map(&a, arr)", "arr[*].a", "arr[?a]", "to_string(@)", "to_string(a)", "type(a)", "to_number(a)", "a[0:1:1]", "[0]", "[-1]", "[1:]",
 		"contains(arr, a)", "a == a", "[a] == [b]", "{k: a} == {k: b}", "length(a)", "reverse(a)", "sort(arr)", "max(arr)", "sum(arr)", "avg(arr)", "join(',', arr)", "not_null(a, b)", "merge(@, @)", "keys(@)", "values(@)", "items(@)",
 		"pad_left(s, a)", "split(s, ',', a)", "replace(s, 'a', 'b', a)", "find_first(s, 'b', a)", "find_last(s, 'b', a, b)", "s[a:b]"} {
 		add(e)
